@@ -40,7 +40,7 @@ RULE = ('directed corpus (every whole-minute offset -23:59..+23:59, sub-minute o
         'TimeFixture). One monitored execution = one call of a function under test with its oracle; distinct by '
         '(kind, fields, tz spec, form, seconds, delta, function, via); all are non-trivial except normalize_time/'
         'parse_isotime/marshalling of a naive value with zero microseconds')
-REQUIRED_CLAUSES = ['override-utcnow-with_timezone', 'process-timezone-not-utc', 'comparison-keyword-call', 'normalize-naive-unchanged', 'normalize-aware-exact', 'normalize-unrepresentable',
+REQUIRED_CLAUSES = ['under-warnings-as-errors', 'override-utcnow-with_timezone', 'process-timezone-not-utc', 'comparison-keyword-call', 'normalize-naive-unchanged', 'normalize-aware-exact', 'normalize-unrepresentable',
                     'normalize-range-edge-representable',
                     'parse-isotime-inverts-isoformat', 'marshall-roundtrip', 'marshall-now-under-override',
                     'leap-second-capped', 'override-utcnow', 'override-utcnow_ts',
@@ -604,7 +604,7 @@ PROC_TZ = ['Asia/Kolkata', 'America/St_Johns', 'Pacific/Kiritimati', 'America/Lo
 KWNAMES = {'older': ('before', 'seconds'), 'newer': ('after', 'seconds'), 'soon': ('dt', 'window')}   # documented names
 
 
-def evaluate(ctx, case):
+def _evaluate_nomodes(ctx, case):
     tz = case.get('proc_tz')
     if not tz:
         return EVAL[case['kind']](ctx, case)
@@ -623,6 +623,10 @@ def evaluate(ctx, case):
         else:
             os.environ['TZ'] = old
         time.tzset()
+
+
+from vlib import envmodes  # noqa: E402
+evaluate = envmodes.with_modes(_evaluate_nomodes, warn=lambda case: True)
 
 
 # ----------------------------------------------------------------------
